@@ -60,7 +60,7 @@ omit hH in
 /-- no wrap-around as long as the natural sum stays below the modulus -/
 theorem insertion_index_nat (start : ZMod p) (i : ℕ) (h : start.val + i < p) :
     (addi start i).val = start.val + i := by
-  haveI : NeZero p := ⟨(Fact.out : p.Prime).ne_zero⟩
+  have : NeZero p := ⟨(Fact.out : p.Prime).ne_zero⟩
   have hi : i < p := by omega
   rw [addi, ZMod.val_add, ZMod.val_natCast, Nat.mod_eq_of_lt hi, Nat.mod_eq_of_lt h]
 
